@@ -44,8 +44,49 @@ def check(pid, tier):
     if pid in BEHAVIOURAL:
         checks.behavioural(pid, tier, out)
         return out.finish(BEHAVIOURAL[pid])
+    if pid == "C17":
+        return check_c17(out, tier)
+    if pid == "C18":
+        return check_c18(out, tier)
+    if pid == "C19":
+        return check_c19(out, tier)
+    if pid == "C20":
+        return check_c20(out, tier)
     print("property %s is not claimed (see MANIFEST.json not_applicable)" % pid)
     return 2
+
+
+def check_c17(out, tier):
+    import random
+    from . import c17
+    rnd = random.Random(checks.SEED)
+    exhaustive_to = 5 if tier == "quick" else 6
+    shapes = c17.all_shapes(exhaustive_to) + c17.wide_deep_family()
+    shapes += [c17.random_shape(rnd, rnd.choice([8, 16, 30, 40])) for _ in range(40 if tier == "quick" else 400)]
+    metas = c17.evaluate(shapes)
+    missing = [i for i, m in enumerate(metas) if m is None]
+    if missing:
+        out.machinery.append("TLC produced no metadata for %d shapes (first %s)" % (len(missing), shapes[missing[0]]))
+        shapes = [s for i, s in enumerate(shapes) if metas[i] is not None]
+        metas = [m for m in metas if m is not None]
+    bad = c17.compile_units(shapes, metas)
+    os.makedirs(os.path.join(tlc.CACHE, "replays"), exist_ok=True)
+    for n, (u, rc, msg) in enumerate(bad[:10]):
+        path = os.path.join(tlc.CACHE, "replays", "C17-%d.cpp" % n)
+        open(path, "w").write(c17.cpp_unit(shapes[u:u + 150], metas[u:u + 150], u))
+        out.violations.append(dict(replay=path, what="static_assert derived from spec/Structure.tla fails: " + msg[:300].replace("\n", " ")))
+    distinct = len({json.dumps(s) for s in shapes})
+    out.coverage.update(dict(
+        evaluations=len(shapes), distinct_nontrivial=distinct, exhaustive=True,
+        rule="every ordered tree with <= %d states x every labelling of its internal nodes with composite/orthogonal x headed/headless "
+             "(exhaustive), plus wide (1..17) and deep (2..8) families and seeded random shapes of up to 40 states; per shape ~%d static_asserts "
+             "(stateId, regionId, STATE/REGION/COMPO/ORTHO counts, ORTHO_UNITS, COMPO_PRONGS, REVERSE_DEPTH, SERIAL_BITS, TASK_CAPACITY) "
+             "whose expected values are computed by TLC from spec/Structure.tla" % (exhaustive_to, 12),
+        samples=[dict(shape=shapes[i], expected={k: v for k, v in metas[i].items() if k != "per_state"}) for i in (0, len(shapes) // 2, len(shapes) - 1)],
+        static_asserts=sum(9 + 2 * m["states"] for m in metas)))
+    out.assumptions += ["g++ evaluates static_asserts correctly", "TLC evaluates spec/Structure.tla correctly",
+                        "identifier types up to 255 states are not exceeded (shapes <= 40 states)"]
+    return out.finish("exploration")
 
 
 def replay(path):
@@ -84,3 +125,87 @@ def replay(path):
 def selftest(args):
     print("selftest: see DESIGN.md section 8; not implemented yet")
     return 2
+
+
+def _save_vectors(name, lines):
+    d = os.path.join(tlc.CACHE, "replays")
+    os.makedirs(d, exist_ok=True)
+    path = os.path.join(d, name)
+    open(path, "w").write("\n".join(lines) + "\n")
+    return path
+
+
+def check_c18(out, tier):
+    from . import c18
+    lines, npairs, nseqs = c18.generate(tier, checks.SEED)
+    path = _save_vectors("C18-vectors.txt", lines)
+    total = 0
+    for variant in ("plain", "asan"):
+        r = c18.replay(lines, variant)
+        if r["mismatches"]:
+            out.violations.append(dict(replay=path, what="%s build: %d results differ from spec/Bits.tla, first: %s" % (variant, len(r["mismatches"]), r["mismatches"][0][:300])))
+        elif r["rc"] != 0 or not r["done"]:
+            out.violations.append(dict(replay=path, what="%s build: harness died rc=%s: %s" % (variant, r["rc"], r["stderr"][-400:].replace("\n", " "))))
+        total += len(lines)
+    out.coverage.update(dict(
+        states=npairs, transitions=sum(1 for l in lines if l.startswith("A")), traces_validated_against_impl=2 * len(lines),
+        evaluations=2 * len(lines), distinct_nontrivial=len(set(lines)),
+        rule="bit arrays: every subset of capacities %s x every operation (single-index get/set/clear through the dynamic and the static/const "
+             "paths, whole-array set/clear/empty/&=/!=, views at every unit offset and width incl. multiples of 8, two-step sequences exposing "
+             "padding bits), sampled subsets for capacities %s; streams: start offsets 0..7 x widths 1..32 x 5 value patterns, plus seeded "
+             "sequences of 2-3 writes; expected results computed by TLC from spec/Bits.tla, replayed on BitArrayT / BitWriteStreamT / "
+             "BitReadStreamT in a plain and an ASan+UBSan build (exactly-sized heap objects)" % (c18.CAPS_EXHAUSTIVE[tier], c18.CAPS_SAMPLED[tier]),
+        samples=[lines[0], lines[len(lines) // 2], lines[-1]], exhaustive=False, stream_cases=nseqs))
+    out.assumptions += ["TLC evaluates spec/Bits.tla correctly", "AddressSanitizer/UBSan report every out-of-object access of the replayed cases"]
+    return out.finish("model_checking")
+
+
+def check_c19(out, tier):
+    from . import c19
+    lines, stats = c19.generate(tier, checks.SEED)
+    path = _save_vectors("C19-vectors.txt", lines)
+    for variant in ("plain", "asan", "assert"):
+        r = c19.replay(lines, variant)
+        if r["mismatches"]:
+            out.violations.append(dict(replay=path, what="%s build: %d observations differ from spec/Containers.tla, first: %s" % (variant, len(r["mismatches"]), r["mismatches"][0][:300])))
+        elif r["rc"] != 0 or not r["done"]:
+            out.violations.append(dict(replay=path, what="%s build: harness died rc=%s: %s" % (variant, r["rc"], r["stderr"][-400:].replace("\n", " "))))
+    out.coverage.update(dict(
+        states=stats["pool_exhaustive"], transitions=sum(int(l.split()[2]) for l in lines), traces_validated_against_impl=3 * len(lines),
+        evaluations=3 * len(lines), distinct_nontrivial=len(set(lines)),
+        rule="task pool: EVERY valid insert / remove-k-th-live / clear sequence of the ideal pool up to depth %s per capacity (TLC enumeration), "
+             "plus seeded random sequences of 20-120 operations for capacities 1-8; bounded array: seeded sequences of append / += / assign / clear; "
+             "after every operation the success flag, count and live contents computed by TLC are compared, and every slot returned by the "
+             "real pool must be free at the time" % (c19.EXHAUSTIVE[tier],),
+        samples=[lines[0][:300], lines[len(lines) // 2][:300], lines[-1][:300]], exhaustive=True, breakdown=stats))
+    out.assumptions += ["TLC evaluates spec/Containers.tla correctly"]
+    return out.finish("model_checking")
+
+
+def check_c20(out, tier):
+    from . import c20
+    r = c20.run(tier, checks.SEED)
+    d = os.path.join(tlc.CACHE, "replays")
+    os.makedirs(d, exist_ok=True)
+    path = os.path.join(d, "C20-records.json")
+    json.dump(r["records"], open(path, "w"))
+    if r["assume_failed"]:
+        out.machinery.append("a published anchor value does not hold in spec/Prng.tla (the reference itself is wrong)")
+    if r["checked"] != len(r["records"]):
+        out.machinery.append("TLC walked %d of %d records: %s" % (r["checked"], len(r["records"]), r["tlc_tail"][-300:]))
+    for dfe in r["diffs"][:10]:
+        out.violations.append(dict(replay=path, what="differs from the published algorithm: " + dfe[:300]))
+    for rec in r["range_bad"][:5]:
+        out.violations.append(dict(replay=path, what="float outside [0,1) for %s/%d seed %s" % (rec["kind"], rec["w"], rec["seed"])))
+    for rec in r["conv_bad"][:5]:
+        out.violations.append(dict(replay=path, what="uniform() is not the top mantissa bits of the integer output for %s/%d seed %s" % (rec["kind"], rec["w"], rec["seed"])))
+    out.coverage.update(dict(
+        evaluations=r["outputs"], distinct_nontrivial=len(r["records"]),
+        rule="generators xoshiro256+ / xoshiro256** / xoshiro128+ / xoshiro128** (FloatRandomT / IntRandomT <8> and <4>), seeds {0, 1, 2^32-1, 2^64-1} "
+             "and seeded random ones: the four seeded state words (non-zero), the first outputs, the state after jump() and outputs after it are compared "
+             "word by word with spec/Prng.tla (written from the published algorithms, anchored by published splitmix64 / xoshiro values); float32()/float64() "
+             "must equal the top 23/52 bits of the integer output scaled into [0,1)",
+        samples=[dict(kind=x["kind"], w=x["w"], seed=x["seed"], first_outputs=x["out"][:2]) for x in r["records"][:3]],
+        records=len(r["records"])))
+    out.assumptions += ["TLC and the Bitwise community module are correct", "the published reference values quoted in engine/c20.py are correct"]
+    return out.finish("exploration")
